@@ -1,7 +1,160 @@
-"""DataFrame model for PandasStream / PandasStore (filled in with C05/C19)."""
-from .values import Unsupported
+"""DataFrame model for PandasStream / PandasStore (DESIGN §3.3): an ordered column map over a shared row index."""
+from __future__ import annotations
+
+import numpy as _np
+
+from . import symnp as snp
+from .values import SBool, SFloat, SInt, STime, Sym, Unsupported
+
+
+def _pd():
+    from . import sympd
+    return sympd
 
 
 class DataFrame:
-    def __init__(self, *a, **k):
-        raise Unsupported("DataFrame model not built yet")
+    def __init__(self, data=None, index=None, columns=None, copy=None):
+        sympd = _pd()
+        self._cols = {}
+        self._index = None
+        if isinstance(data, DataFrame):
+            self._cols = {k: v.copy() for k, v in data._cols.items()}
+            self._index = data._index
+            return
+        if index is not None:
+            self._index = index if isinstance(index, sympd.Index) else sympd.Index(index)
+        if data is not None:
+            if not isinstance(data, dict):
+                raise Unsupported("DataFrame from non-dict data")
+            for k, v in data.items():
+                self[k] = v
+
+    # -- structure -----------------------------------------------------------------------
+    @property
+    def columns(self):
+        return list(self._cols)
+
+    @property
+    def index(self):
+        if self._index is None:
+            return _pd().RangeIndex(0)
+        return self._index
+
+    def __len__(self):
+        return len(self._index) if self._index is not None else 0
+
+    @property
+    def shape(self):
+        return (len(self), len(self._cols))
+
+    @property
+    def empty(self):
+        return len(self) == 0 or not self._cols
+
+    def __contains__(self, key):
+        try:
+            return key in self._cols
+        except TypeError:
+            return False
+
+    def __iter__(self):
+        return iter(self._cols)
+
+    def keys(self):
+        return list(self._cols)
+
+    def __repr__(self):
+        return f"symDataFrame(columns={list(self._cols)}, rows={len(self)})"
+
+    def __array__(self, *a, **k):
+        raise Unsupported("symbolic DataFrame handed to real numpy")
+
+    # -- column access -------------------------------------------------------------------
+    def __getitem__(self, key):
+        sympd = _pd()
+        if isinstance(key, (list,)):
+            return self._select_cols(key)
+        if isinstance(key, (sympd.Series, snp.ndarray)):
+            return self._select_rows(key)
+        if key not in self._cols:
+            raise KeyError(key)
+        return sympd.Series(self._cols[key], index=self.index, name=key)
+
+    def __setitem__(self, key, value):
+        sympd = _pd()
+        if isinstance(value, sympd.Series):
+            arr = value.values_arr().copy()
+        elif isinstance(value, sympd.Index):
+            arr = value.arr.copy()
+        elif isinstance(value, snp.ndarray):
+            if value._is_masked:
+                arr = sympd.Series(value).values_arr()      # masked -> NaN / NaT (sanitize_masked_array)
+            else:
+                arr = value.copy()
+        elif isinstance(value, (list, tuple, _np.ndarray)):
+            arr = snp.array(value)
+        elif isinstance(value, Sym) or isinstance(value, (int, float, str, bool)) or value is None:
+            if self._index is None:
+                raise Unsupported("scalar column on an empty frame")
+            arr = snp.full((len(self),), value)
+        else:
+            raise Unsupported(f"DataFrame column from {type(value).__name__}")
+        if arr.a.ndim != 1:
+            raise ValueError(f"Expected a 1D array, got an array with shape {arr.a.shape}")
+        if self._index is None:
+            self._index = sympd.RangeIndex(len(arr))
+        elif len(arr) != len(self._index):
+            raise ValueError(f"Length of values ({len(arr)}) does not match length of index ({len(self._index)})")
+        self._cols[key] = arr
+
+    def _select_cols(self, keys):
+        out = DataFrame()
+        out._index = self._index
+        for k in keys:
+            if k not in self._cols:
+                raise KeyError(f"{k!r} not in index")
+            out._cols[k] = self._cols[k]
+        return out
+
+    def _select_rows(self, cond):
+        sympd = _pd()
+        c = cond.values_arr() if isinstance(cond, sympd.Series) else cond
+        if c._dt.kind != "b":
+            raise Unsupported("row selection with a non-boolean key")
+        if len(c) != len(self):
+            raise IndexError(f"Item wrong length {len(c)} instead of {len(self)}.")
+        pos = [i for i, b in enumerate(c.a) if bool(b)]
+        ii = _np.array(pos, dtype=int)
+        out = DataFrame()
+        out._index = type(self.index)(self.index.arr[ii]) if not isinstance(self.index, sympd.RangeIndex) else sympd.Index(self.index.arr[ii])
+        for k, v in self._cols.items():
+            out._cols[k] = v[ii]
+        return out
+
+    @property
+    def loc(self):
+        return _Loc(self)
+
+    def copy(self):
+        return DataFrame(self)
+
+    def to_dict(self):
+        return {k: v for k, v in self._cols.items()}
+
+
+class _Loc:
+    def __init__(self, df):
+        self.df = df
+
+    def __getitem__(self, key):
+        if not isinstance(key, tuple) or len(key) != 2:
+            raise Unsupported("DataFrame.loc with a non 2-tuple key")
+        rows, cols = key
+        df = self.df
+        if not (isinstance(rows, slice) and rows == slice(None)):
+            df = df._select_rows(rows)
+        if isinstance(cols, slice) and cols == slice(None):
+            return df
+        if isinstance(cols, list):
+            return df._select_cols(cols)
+        return df[cols]
